@@ -424,12 +424,20 @@ func checkEncode(res *vh.Result, ip net.IP, want string) bool {
 }
 
 func replayAddrs(args []string) error {
-	if len(args) != 2 {
-		return fmt.Errorf("usage: replay-addrs <vectors> <result>")
+	if len(args) != 2 && len(args) != 3 {
+		return fmt.Errorf("usage: replay-addrs <vectors> <result> [<stress-units-out>]")
 	}
 	res, err := vh.NewResult(args[1])
 	if err != nil {
 		return err
+	}
+	// A spread sample of the vectors for the concurrent phase (vh c04 stress).
+	var sample *vh.Trace
+	if len(args) == 3 {
+		if sample, err = vh.NewTrace(args[2]); err != nil {
+			return err
+		}
+		defer sample.Close()
 	}
 	n, calls := 0, 0
 	dd := vh.NewDedup()
@@ -448,6 +456,9 @@ func replayAddrs(args []string) error {
 		}
 		if dd.N()%2503 == 1 {
 			res.Sample(map[string]any{"ip": ip.String(), "name": v.Name, "variants": len(v.Vars)})
+		}
+		if sample != nil && dd.N()%17 == 0 {
+			sample.Emit(json.RawMessage(raw))
 		}
 		calls++
 		checkEncode(res, ip, v.Name)
@@ -604,7 +615,7 @@ func Edit(rng *rand.Rand, s string) string {
 			return EditAlphabet[rng.IntN(len(EditAlphabet))] + EditAlphabet[rng.IntN(20)]
 		}
 	}
-	switch rng.IntN(12) {
+	switch rng.IntN(13) {
 	case 0: // insert a label
 		labels = append(labels[:li], append([]string{randLabel()}, labels[li:]...)...)
 	case 1: // delete a label
@@ -644,6 +655,18 @@ func Edit(rng *rand.Rand, s string) string {
 			break
 		}
 		return s + "."
+	case 11: // the root-suffix labels as ordinary labels: append / insert / repeat a suffix
+		suf := []string{"in-addr.arpa", "ip6.arpa", "arpa", "in-addr", "evil.example.in-addr.arpa", "IN-ADDR.ARPA"}[rng.IntN(6)]
+		switch rng.IntN(3) {
+		case 0:
+			return strings.TrimSuffix(s, ".") + "." + suf
+		case 1:
+			labels = append(labels[:li], append(strings.Split(suf, "."), labels[li:]...)...)
+		default:
+			if n := len(labels); n >= 2 {
+				return strings.TrimSuffix(s, ".") + "." + strings.Join(labels[n-2:], ".")
+			}
+		}
 	default: // prepend labels
 		return randLabel() + "." + s
 	}
@@ -939,112 +962,182 @@ func record(args []string) error {
 		"subst_inputs": nSubst, "subst_accepts": substAcc, "walk_calls": walkCalls})
 }
 
-// ------------------------------------------------------------ stress (under -race)
+// ------------------------------------------------------------ stress (concurrent, result-checked)
 
-// stress runs the codec from several goroutines without any instrumentation
-// (built with -race by the orchestrator): every goroutine owns its addresses
-// and one reusable buffer; the expected names are computed beforehand,
-// sequentially, from fresh slices.  A package-level memo shows up as wrong
-// names and as a data race with a golibs frame.
+// stressUnit is one address vector of ArpaAddr.tla: the bytes, the predicted
+// name and the predicted IPFromReversedAddr result of every spelling.
+type stressUnit struct {
+	ip   []byte
+	name string
+	vars []addrVar
+}
+
+// loadStressUnits picks n distinct address vectors, alternating between the
+// 4-byte, 16-byte IPv6 and 16-byte IPv4-mapped forms.
+func loadStressUnits(path string, n int) (units []stressUnit, err error) {
+	var kinds [3][]stressUnit
+	dd := vh.NewDedup()
+	err = vh.ForEachVector(path, func(_ int, raw []byte) error {
+		var v addrVec
+		if err := json.Unmarshal(raw, &v); err != nil {
+			return err
+		}
+		ip := []byte(ipOf(v.IP))
+		if !dd.Add(ip) || len(v.Vars) == 0 {
+			return nil
+		}
+		k := 0
+		if len(ip) == 16 {
+			k = 1
+			if net.IP(ip).To4() != nil {
+				k = 2
+			}
+		}
+		// Keep a bounded, evenly spread reservoir of each kind.
+		if len(kinds[k]) < 4*n || dd.N()%7 == 0 {
+			u := stressUnit{ip: ip, name: v.Name, vars: v.Vars}
+			if len(kinds[k]) < 4*n {
+				kinds[k] = append(kinds[k], u)
+			} else {
+				kinds[k][dd.N()%len(kinds[k])] = u
+			}
+		}
+		return nil
+	})
+	if err != nil {
+		return nil, err
+	}
+	names := map[string]bool{}
+	for i := 0; len(units) < n && i < 12*n; i++ {
+		ks := kinds[i%3]
+		if len(ks) == 0 {
+			continue
+		}
+		u := ks[(i/3)%len(ks)]
+		// Mapped and plain forms of one IPv4 address share a name: keep one.
+		if names[u.name] {
+			continue
+		}
+		names[u.name] = true
+		units = append(units, u)
+	}
+	if len(units) < n {
+		return nil, fmt.Errorf("only %d distinct address vectors in %s, need %d", len(units), path, n)
+	}
+	return units, nil
+}
+
+type stressFailure struct{ key, what string }
+
+// stress runs the codec from several goroutines (the orchestrator runs it
+// twice: plain, and built with -race).  Every goroutine owns a few address
+// vectors of ArpaAddr.tla - distinct from every other goroutine's, of both
+// families - and one reusable buffer per length; it encodes and decodes them
+// in runs (the same address several times, then another one, so that a memo
+// would alternately hit and miss) and compares EVERY result with the name /
+// address the specification predicts for that call's argument.  This is the
+// several-process reading of ArpaState.tla's NoHiddenState.
 func stress(args []string) error {
-	if len(args) != 3 {
-		return fmt.Errorf("usage: stress <result> <goroutines> <rounds>")
+	if len(args) != 4 {
+		return fmt.Errorf("usage: stress <result> <goroutines> <iterations> <addr-vectors>")
 	}
 	ng, _ := strconv.Atoi(args[1])
-	rounds, _ := strconv.Atoi(args[2])
-	if ng <= 0 || rounds <= 0 {
+	iters, _ := strconv.Atoi(args[2])
+	if ng <= 0 || iters <= 0 {
 		return fmt.Errorf("bad counts %q %q", args[1], args[2])
 	}
 	res, err := vh.NewResult(args[0])
 	if err != nil {
 		return err
 	}
-	rng := vh.Rand(44)
-	type unit struct {
-		ip   []byte
-		name string
-		want Res
+	const perG = 4
+	all, err := loadStressUnits(args[3], ng*perG)
+	if err != nil {
+		return err
 	}
-	units := make([][]unit, ng)
-	for g := range units {
-		for k := 0; k < 64; k++ {
-			ip := []byte(RandAddr(rng))
-			ip[len(ip)-1] = byte(g) // distinct per goroutine
-			if len(ip) == 16 {
-				ip[0] = byte(0x20 + g)
+	// Alone, every prediction must hold (otherwise G reports it; skip here).
+	check := func(u stressUnit, buf net.IP, vi int) (f *stressFailure) {
+		copy(buf, u.ip)
+		var name string
+		var err error
+		pv, p := vh.Try(func() { name, err = netutil.IPToReversedAddr(buf) })
+		if p || err != nil || name != u.name {
+			return &stressFailure{fmt.Sprintf("concurrent IPToReversedAddr(%v)", u.ip),
+				fmt.Sprintf("returned %q, %v (panic %v) while other goroutines encode other addresses; the specification predicts %q", name, err, pv, u.name)}
+		}
+		if !bytes.Equal(buf, u.ip) {
+			return &stressFailure{fmt.Sprintf("concurrent IPToReversedAddr(%v)", u.ip), "the call modified its argument"}
+		}
+		if vi >= 0 {
+			va := u.vars[vi%len(u.vars)]
+			got, _, pv2, p2 := CallIP(va.S)
+			if p2 || !got.Equal(va.R) {
+				return &stressFailure{"concurrent " + Key("IPFromReversedAddr", va.S),
+					fmt.Sprintf("returned %v (panic %v) while other goroutines decode other names; the specification predicts %v", got, pv2, va.R)}
 			}
-			name, err := netutil.IPToReversedAddr(bytes.Clone(ip))
-			want := wantOfIP(ip)
-			if got, _, _, _ := CallIP(name); err != nil || !got.Equal(want) {
-				res.Mismatch(fmt.Sprintf("IPToReversedAddr(%v)", ip), fmt.Sprintf("sequential preparation: %q, %v does not round-trip", name, err), nil)
-				continue
+		}
+		return nil
+	}
+	units := make([][]stressUnit, ng)
+	for i, u := range all {
+		ok := true
+		for vi := range u.vars {
+			if check(u, make(net.IP, len(u.ip)), vi) != nil {
+				ok = false
 			}
-			units[g] = append(units[g], unit{ip: ip, name: name, want: want})
+		}
+		if ok {
+			units[i%ng] = append(units[i%ng], u)
 		}
 	}
-	type failure struct{ key, what string }
-	fails := make([][]failure, ng)
+	fails := make([][]stressFailure, ng)
+	counts := make([]int64, ng)
 	var wg sync.WaitGroup
-	var calls int64
-	var mu sync.Mutex
+	start := make(chan struct{})
 	for g := 0; g < ng; g++ {
+		if len(units[g]) == 0 {
+			continue
+		}
 		wg.Add(1)
 		go func(g int) {
 			defer wg.Done()
-			n := int64(0)
-			buf4, buf16 := make(net.IP, 4), make(net.IP, 16)
-			for r := 0; r < rounds; r++ {
-				for _, u := range units[g] {
-					buf := buf4
-					if len(u.ip) == 16 {
-						buf = buf16
-					}
-					copy(buf, u.ip)
-					var name string
-					var err error
-					pv, p := vh.Try(func() { name, err = netutil.IPToReversedAddr(buf) })
-					n++
-					if p || err != nil || name != u.name {
-						fails[g] = append(fails[g], failure{fmt.Sprintf("concurrent IPToReversedAddr(%v)", u.ip),
-							fmt.Sprintf("returned %q, %v (panic %v); alone it returns %q", name, err, pv, u.name)})
-					}
-					got, _, pv2, p2 := CallIP(u.name)
-					n++
-					if p2 || !got.Equal(u.want) {
-						fails[g] = append(fails[g], failure{"concurrent " + Key("IPFromReversedAddr", u.name),
-							fmt.Sprintf("returned %v (panic %v); alone it returns %v", got, pv2, u.want)})
-					}
-					var p1, p2x netip.Prefix
-					var e1, e2 error
-					_, p3 := vh.Try(func() {
-						p1, e1 = netutil.PrefixFromReversedAddr(u.name)
-						p2x, e2 = netutil.ExtractReversedAddr("host." + u.name)
-					})
-					n += 2
-					wp, _ := u.want.Prefix()
-					if p3 || e1 != nil || e2 != nil || p1 != wp || p2x != wp {
-						fails[g] = append(fails[g], failure{"concurrent prefix decoding of " + strconv.Quote(u.name),
-							fmt.Sprintf("returned %v, %v / %v, %v; alone %v", p1, e1, p2x, e2, wp)})
+			rng := rand.New(rand.NewPCG(vh.Seed(), uint64(1000+g)))
+			bufs := map[int]net.IP{4: make(net.IP, 4), 16: make(net.IP, 16)}
+			cur := 0
+			<-start
+			for it := 0; it < iters; it++ {
+				// runs of the same address: stay with probability 2/3
+				if rng.IntN(3) == 0 {
+					cur = (cur + 1 + rng.IntN(len(units[g]))) % len(units[g])
+				}
+				u := units[g][cur]
+				vi := -1
+				if it%3 == 0 {
+					vi = it / 3
+				}
+				counts[g] += 1
+				if vi >= 0 {
+					counts[g]++
+				}
+				if f := check(u, bufs[len(u.ip)], vi); f != nil {
+					if len(fails[g]) < 3 {
+						fails[g] = append(fails[g], *f)
 					}
 				}
 			}
-			mu.Lock()
-			calls += n
-			mu.Unlock()
 		}(g)
 	}
+	close(start)
 	wg.Wait()
-	nu := 0
+	nu, calls := 0, int64(0)
 	for g := range fails {
 		nu += len(units[g])
-		for i, f := range fails[g] {
-			if i >= 5 {
-				break
-			}
+		calls += counts[g]
+		for _, f := range fails[g] {
 			res.Mismatch(f.key, f.what, nil)
 		}
 	}
-	return res.Close(map[string]any{"stress_calls": calls, "stress_units": nu, "goroutines": ng, "rounds": rounds})
+	return res.Close(map[string]any{"stress_calls": calls, "stress_units": nu, "goroutines": ng, "iterations": iters})
 }
 
 // ------------------------------------------------------------ probe (--replay)
